@@ -830,7 +830,7 @@ def co_events(case, toks):
             if 1 <= cur <= n:
                 out.append(("done", 1, cur - 1, err))
             elif cur > n:
-                out.append(("done", 0, cur - 1 - n, None))
+                out.append(("done", 0, cur - 1 - n, err if case.term == "rcol" else None))
         elif t in ("=X", "E:X"):
             panic = True
         elif t[0] == "D" and t[1:].isdigit():
@@ -899,8 +899,11 @@ def mon_C13(case, toks):
 
 
 def mon_C14(case, toks):
-    if not case.is_co or case.term != "tfe":
+    if not case.is_co or case.term not in ("tfe", "rcol"):
         return None
+    fstage = 1 if case.term == "tfe" else 0       # the stage whose futures are fallible
+    name = "try_for_each" if case.term == "tfe" else "collect::<Result<Vec<_>,_>>"
+
     evs, panic = co_events(case, toks)
     if panic:
         return None
@@ -919,32 +922,32 @@ def mon_C14(case, toks):
                 if first_err_seen:
                     return f"item {e[1]} taken from the source after an error had been observed"
                 srcs.append(e[1])
-        elif e[0] == "call" and e[1] == 1:
+        elif e[0] == "call" and e[1] == fstage:
             live.add(e[2])
-        elif e[0] == "done" and e[1] == 1:
+        elif e[0] == "done" and e[1] == fstage:
             live.discard(e[2])
             if e[3] is not None:
                 errs.append(e[3])
                 first_err_seen = True
             else:
                 done_ok.add(e[2])
-        elif e[0] == "dropwork" and e[1] == 1:
+        elif e[0] == "dropwork" and e[1] == fstage:
             live.discard(e[2])
         elif e[0] == "result":
-            if e[1] == "ok":
+            if e[1] in ("ok", "vec"):
                 if errs:
-                    return f"try_for_each resolved Ok although closure futures returned errors {errs}"
+                    return name + f" resolved Ok although closure futures returned errors {errs}"
                 want = srcs if case.take is None else srcs[:case.take]
                 if case.take is None and not src_end:
-                    return "try_for_each resolved Ok before the source was exhausted"
+                    return name + " resolved Ok before the source was exhausted"
                 missing = [j for j in want if j not in done_ok]
                 if missing:
-                    return f"try_for_each resolved Ok although items {missing} were not processed to completion"
+                    return name + f" resolved Ok although items {missing} were not processed to completion"
             elif e[1] == "err":
                 if e[2] not in errs:
-                    return f"try_for_each resolved Err({e[2]}) which no closure future returned (returned: {errs})"
+                    return name + f" resolved Err({e[2]}) which no closure future returned (returned: {errs})"
             if live:
-                return f"try_for_each resolved while closure futures of items {sorted(live)} were neither finished nor dropped"
+                return name + f" resolved while closure futures of items {sorted(live)} were neither finished nor dropped"
         elif e[0] == "droptop":
             dropped_top = True
     if dropped_top and live:
@@ -977,7 +980,7 @@ def mon_C15(case, toks):
                 return f"item {e[2]} was processed although take({case.take}) was applied"
         elif e[0] == "result":
             want = srcs if case.take is None else srcs[:case.take]
-            if e[1] == "vec" and case.term == "col":
+            if e[1] == "vec" and case.term in ("col", "rcol"):
                 got = sorted(int(x.split(":")[-1]) for x in e[2])
                 if got != sorted(want):
                     return f"collect returned items {got}, the source items to process were {sorted(want)}"
